@@ -120,10 +120,12 @@ PROPS['C08']['proved'] += (' Token level: Biscuit::seal / UnverifiedBiscuit::sea
     'append, append_third_party, third_party_request and seal on a sealed token return an error.')
 PROPS['C08']['assumptions'] = CRYPTO_ASSUMPTIONS + _TOKEN_CONTRACT_TRUST
 PROPS['C15']['units'].append({'template': 'token.rs', 'rlimit': 30, 'items': [
-    r'^token::Biscuit::(revocation_identifiers|seal|append_with_keypair|append_third_party_with_keypair)$',
-    r'^token::unverified::UnverifiedBiscuit::(revocation_identifiers|seal|append_with_keypair|append_third_party_with_keypair|verify)$']})
+    r'^token::Biscuit::(revocation_identifiers|seal|append_with_keypair|append_third_party_with_keypair|append|append_third_party)$',
+    r'^token::unverified::UnverifiedBiscuit::(revocation_identifiers|seal|append_with_keypair|append_third_party_with_keypair|verify|append|append_third_party)$']})
 PROPS['C15']['proved'] += (' Token level: revocation_identifiers() is exactly [authority signature] ++ block signatures, in order, on both token types; every append / seal / verify '
-    'keeps the existing container blocks as a prefix (appended / frame clauses).')
+    'keeps the existing container blocks as a prefix (appended / frame clauses). Next keys: append_with_keypair / append_third_party_with_keypair (both token types) put the public key of the GIVEN key pair in the new block '
+    'and keep its private key as the proof; append / append_third_party (both token types) obtain that key pair from the operating-system RNG (KeyPair::new_with_rng(Ed25519, OsRng), an oracle) and from nowhere else.')
+PROPS['C15']['not_covered'] = PROPS['C15']['not_covered'] + ['the next key of the authority block (BiscuitBuilder::build_with_rng, builder code outside the units)']
 PROPS['C15']['assumptions'] = CRYPTO_ASSUMPTIONS + _TOKEN_CONTRACT_TRUST
 
 PROPS['C09'] = {
